@@ -162,6 +162,13 @@ def envelopeWritePayloadErrorPinned (e : GoError) : GoError := .coded codeUnknow
 /-- `duplexHTTPCall.Write` when the context is already done -/
 def duplexWriteCtxError (k : CtxKind) : GoError := wrapIfContextError (.ctx k)
 
+/-- `duplexHTTPCall.Write` on a call whose context is done, with the call's stored error taken
+    into account: the context's error is what is *returned*, whatever ended the call earlier (the
+    peer's error, the clean end of the response); it is also offered to `SetError`, which keeps
+    the first. Result: (returned error, stored error afterwards). -/
+def duplexWriteDone (stored : Option GoError) (k : CtxKind) : GoError × Option GoError :=
+  (duplexWriteCtxError k, setError stored (.ctx k))
+
 /-- what a protocol conn's `Receive` returns for an envelope-level error `e` when the response
     carries no server error (Connect streaming after fix 5db0304; gRPC with empty trailers):
     an EOF-like error without terminator becomes an internal protocol error, anything else is
